@@ -9,6 +9,7 @@ spec/StopWatch.tla is the state machine; this check
   4. proves the binding: a corrupted trace and a deliberately wrong stub must
      both be rejected.
 """
+import copy
 import json
 import multiprocessing
 import os
@@ -33,8 +34,10 @@ def new_watch(tu, dur):
 
 
 def clone(w):
+    # a copy of the watch's whole state, not only of its top level: how the watch keeps its splits (a tuple that is
+    # replaced, a list that grows) is its own business and must not leak from one branch of the replay into another
     c = object.__new__(type(w))
-    c.__dict__.update(w.__dict__)
+    c.__dict__.update(copy.deepcopy(w.__dict__))
     return c
 
 
@@ -144,8 +147,21 @@ def step_check(ctx, w, f, op, arg, res, t, path, mode):
     if op == 'tick':
         return True
     _clock[0] = f['clock']
+    try:
+        handed_out = w.splits
+        handed_out_was = [[num(x.elapsed), num(x.length)] for x in handed_out]
+    except Exception:
+        handed_out = None
     got = call(w, op, arg)
     ok = True
+    if handed_out is not None and [[num(x.elapsed), num(x.length)] for x in handed_out] != handed_out_was:
+        # the splits a caller read before the call are a record of the past: a later call does not rewrite them
+        ok = False
+        ctx.violation({'kind': 'splits-handed-out-earlier-changed', 'op': op},
+                      {'path': path, 'from': f, 'op': op, 'arg': arg, 'read_before_the_call': handed_out_was,
+                       'same_object_after_the_call': [[num(x.elapsed), num(x.length)] for x in handed_out]},
+                      'StopWatch.%s(%s): the splits read before the call were %s and are %s afterwards (path %s)' % (
+                          op, arg, handed_out_was, [[num(x.elapsed), num(x.length)] for x in handed_out], path))
     if not masked(op, arg):
         if got != res:
             ok = False
